@@ -149,6 +149,7 @@ class ImplLog(object):
         """a new DefaultHandler().init() on the same directory; 'ok' | 'refused' | 'raise:<class>'"""
         self.handler = None
         self.refused = False
+        self.last_raise = None
         h = dh.DefaultHandler()
         try:
             h.init()
@@ -165,8 +166,15 @@ class ImplLog(object):
         """one callback of the running handler (nothing happens when no handler runs)"""
         h = self.handler
         t = self.clock.time()
+        self.last_raise = None
         if h is None:
             return
+        try:
+            self._dispatch(h, t, cb, msg)
+        except Exception as e:   # noqa: the agent's catch-alls would log it and carry on; the audit of the files judges
+            self.last_raise = type(e).__name__
+
+    def _dispatch(self, h, t, cb, msg):
         p = self.peer
         if cb == 'update':
             h.update_received(p, t, msg)
